@@ -151,6 +151,7 @@ type spc =
 | SCan
 | SCan2
 | SCan3 of nat
+| SCan4 of nat * nat
 | SDone
 
 type selst =
@@ -164,6 +165,7 @@ type cnst =
 | CnIdle
 | Cn1
 | Cn2 of nat
+| Cn3 of nat * nat
 
 type tst =
 | TFree
@@ -176,6 +178,8 @@ type home =
 | HSlot of nat
 | HSel of nat
 | HFast of nat
+| HCan of nat
+| HKCan of nat
 | HAwake
 
 type res =
@@ -221,6 +225,7 @@ type action =
 | CancelSet of nat
 | CancelIo of nat
 | CancelTake of nat
+| CancelNull of nat
 | Tick of nat
 | Shutdown of nat
 | Spurious of nat
@@ -428,7 +433,7 @@ val is_err : z -> bool
 
 val mstep : bool -> nat -> st -> action -> st option
 
-val mkplan : ast -> z list -> plan
+val mkplan : bool -> ast -> z list -> plan
 
 val exec : bool -> nat -> st -> action list -> st option
 
